@@ -36,9 +36,10 @@ def r1_comment_recogniser(ctx, rep):
     py, rx = ctx.py, ctx.rx
     pat, flags, node, _ = ctx.regexes["FortranReader.COM_RE"]
     try:
-        P, _tail = rx.split_at_group(pat, flags, 4)
+        gnum, _gname = rx.group_starting_with(pat, flags, "!")       # the comment group, whatever its number or name
+        P, _tail = rx.split_at_group(pat, flags, gnum)
     except rx.Unsupported as e:
-        raise AnalysisError(f"COM_RE: the comment is no longer captured by a top-level group 4 ({e}): {pat}")
+        raise AnalysisError(f"COM_RE: the comment is no longer captured by a top-level group ({e}): {pat}")
     R = rx.full(lexical.CODE_PREFIX, 0)
     w = rx.equiv_witness(P, R)
     rep.ob("COM_RE prefix == code-without-comment language", w is None,
@@ -61,7 +62,11 @@ def r1_comment_recogniser(ctx, rep):
     param = fn.args.args[0].arg
     fl = py.eval_flags(call[0].args[1] if len(call[0].args) > 1 else None)
     for mk in DOCMARKS:
-        p = py.eval_str(call[0].args[0], {**py.module_env("reader"), param: mk})
+        p = None
+        for cand in [call[0].args[0]] + astq.expand_locals(call[0].args[0], fn):      # the pattern may be built in a local first
+            p = py.eval_str(cand, {**py.module_env("reader"), param: mk})
+            if p is not None:
+                break
         if p is None:
             raise AnalysisError("_compile_docmark: the pattern is not a constant expression of the marker")
         try:
@@ -431,6 +436,14 @@ def r8_include_lines(ctx, rep):
     w2 = rx.subset_witness(rx.full(r"include '[a-z.]+'", re.IGNORECASE), rec)
     rep.ob("`include 'file'` is recognised", w2 is None, "" if w2 is None else f"`{w2}` is not recognised", py.nloc(node), witness=w2)
 
+def r9_sub_templates(ctx, rep):
+    """literal text that is put back with `<regex>.sub(text, ...)` is a replacement *template*: its backslashes must be
+    doubled first, otherwise the literal is changed or FORD fails on it (generic rule `sub_template_escaped`; shared with
+    C18.R12)"""
+    from . import common
+    common.sub_template_escaped(ctx, rep, modules=("sourceform", "reader", "utils"))
+
+
 RULES = [
     RuleSpec("C02.R6", r6_masking_cursor, "masking loops advance past the placeholder (shared with C20.R4)", floor=2),
     RuleSpec("C02.R1", r1_comment_recogniser, "comment recogniser == Fortran comment rule", floor=6),
@@ -440,4 +453,5 @@ RULES = [
     RuleSpec("C02.R5", r5_continuation, "continuation joining removes exactly the & characters", floor=3),
     RuleSpec("C02.R8", r8_include_lines, "INCLUDE lines are recognised by keyword plus literal", floor=2),
     RuleSpec("C02.R7", r7_no_transform_after_restore, "no rewriting after literals are re-inserted (shared with C18.R2)", floor=2),
+    RuleSpec("C02.R9", r9_sub_templates, "source text used as a regex replacement template has its backslashes doubled", floor=5),
 ]
